@@ -213,6 +213,7 @@ type Encoder struct {
 	cur   Table
 	trace []string
 	chars int
+	ecis  []ECIMark
 }
 
 // NewEncoder starts a stream in the Upper table, as every Aztec message does.
@@ -321,6 +322,43 @@ func (e *Encoder) BinaryShift(data []byte) {
 	}
 	e.trace = append(e.trace, e.cur.String()+":B/S "+form+" n="+itoa(n))
 }
+
+// ECIMark records where in the expected text an ECI escape takes effect.
+type ECIMark struct {
+	TextPos int // index into Text(): bytes from here on are in the new interpretation
+	Value   int
+}
+
+// ECI emits an extended-channel-interpretation escape per ISO/IEC 24778: FLG(n)
+// (Punct code 0, reached by P/S from Upper, Lower, Mixed and Digit or directly when
+// latched to Punct), the 3-bit digit count n = 1..6 and the n decimal digits of the
+// assignment number as Digit-table codes (digit d = code d+2).  The expected text is
+// not changed; the mark tells the caller which character set applies to the bytes
+// that follow.
+func (e *Encoder) ECI(value int) {
+	if value < 0 || value > 999999 {
+		panic("azref: ECI out of range")
+	}
+	digits := itoa(value)
+	if e.cur == Punct {
+		e.w.put(0, 5)
+	} else {
+		if !hasPS(e.cur) {
+			panic("azref: no P/S here")
+		}
+		e.w.put(codePS, e.cur.Width())
+		e.w.put(0, 5)
+	}
+	e.w.put(len(digits), 3)
+	for i := 0; i < len(digits); i++ {
+		e.w.put(int(digits[i]-'0')+2, 4)
+	}
+	e.ecis = append(e.ecis, ECIMark{TextPos: len(e.text), Value: value})
+	e.trace = append(e.trace, e.cur.String()+":FLG("+itoa(len(digits))+") ECI "+digits)
+}
+
+// ECIMarks returns the ECI escapes emitted so far.
+func (e *Encoder) ECIMarks() []ECIMark { return e.ecis }
 
 // binaryShiftBits is the cost of one B/S carrying n bytes.
 func binaryShiftBits(n int) int {
